@@ -8,6 +8,10 @@ From Lox Require Import Parse.Grammar Parse.Tables Parse.ParseRuntime Parse.Vali
 From Lox Require Import Lex.LexRuntime Lex.LexAuto Lex.NfaRef Lex.LexEquiv Lex.RegexRef.
 From Lox Require Import Gen.TableEnc Gen.Numbering Gen.FirstModel Gen.ResolveModel Gen.LALRRef Gen.PrecClimb Gen.Binding Gen.Analyze.
 
+(* stable names for functions whose short names clash between modules *)
+Definition x_table_build := TableEnc.build.
+Definition x_table_build_u := TableEnc.build_u.
+
 Extraction Language OCaml.
 Extraction "loxmodel_ext.ml"
   flatten_log flatten subtract normalize replay heap_of
@@ -18,7 +22,7 @@ Extraction "loxmodel_ext.ml"
   decode_row modes_wf mode_progress_ok mode_terminal_last mode_nstates
   equiv_check closed
   re_auto re_start st_eqb wf_rulesb
-  build build_u encode_lex_row row_key varint
+  x_table_build x_table_build_u encode_lex_row row_key varint
   terminals token_to_string index_of
   first_go first_go_seq first_spec nullable_spec first_seq_spec
   resolve cell_conflict resolved_cell lalr_ref has_conflicts cell_at find_state_by_core
